@@ -19,7 +19,14 @@ def quiesceAux : Nat → List St → List St → List St → List St
     if seen.contains s then quiesceAux f rest seen q else
     let acts := internalActs s
     if acts.isEmpty then quiesceAux f rest (s :: seen) (s :: q)
-    else quiesceAux f ((acts.filterMap (step? s)).map canon ++ rest) (s :: seen) q
+    else
+      -- partial-order reduction: taking the read lock, a timer firing, a cancellation and the end of a
+      -- close commute with every other enabled internal step and never disable one (a delivery whose
+      -- deadline has passed sits at a full buffer, else it would have been sent before the clock
+      -- advanced), so one representative order suffices; only competing sends into a buffer branch.
+      match acts.find? (fun a => match a with | .acquireR _ _ | .timeout _ _ | .cancel _ _ | .closeFinish _ => true | _ => false) with
+      | some a => quiesceAux f (((step? s a).toList).map canon ++ rest) (s :: seen) q
+      | none => quiesceAux f ((acts.filterMap (step? s)).map canon ++ rest) (s :: seen) q
 
 def quiesce (s : St) : List St := quiesceAux 20000 [canon s] [] []
 
